@@ -19,7 +19,7 @@ def format_classes(ctx):
     fd = commits.file_dumper(ctx)
     pd = fd.methods.get('process_datapackage')
     out = {}
-    dicts = [d for d in ast.walk(pd.node) if isinstance(d, ast.Dict)]
+    dicts = [d for d in ast.walk(ctx.N(pd).node) if isinstance(d, ast.Dict)]       # (a helper that holds the map is read through)
     # the built-in format map may also be a class-level constant of the dumper
     for st in list(fd.node.body) + list(fd.module.tree.body):
         if isinstance(st, ast.Assign) and isinstance(st.value, ast.Dict):
